@@ -25,6 +25,8 @@ func init() {
 		{Name: "default-protocol-name-v3", Rule: "R2.8", Where: "NewConnect#name", Edits: []Edit{{"connect.go", "var mqtt5 = []byte(\"MQTT\")", "var mqtt5 = []byte(\"MQIsdp\")"}}},
 		{Name: "auth-reason-code-without-property-length", Rule: "R2.5", Where: "Auth", Edits: []Edit{{"auth.go", "\ti += p.reasonCode.fill(b, i)\n\ti += vbint(proplen).fill(b, i)\n\ti += p.properties(b, i)\n\treturn i - n\n}\n\nfunc (p *Auth) properties", "\ti += p.reasonCode.fill(b, i)\n\tif proplen == 0 {\n\t\treturn i - n\n\t}\n\ti += vbint(proplen).fill(b, i)\n\ti += p.properties(b, i)\n\treturn i - n\n}\n\nfunc (p *Auth) properties"}}},
 		{Name: "reason-string-under-wrong-id", Rule: "R2.1", Where: "Auth", Edits: []Edit{{"auth.go", "\ti += p.reasonString.fillProp(b, i, ReasonString)", "\ti += p.reasonString.fillProp(b, i, ServerReference)"}}},
+		{Name: "remaining-length-in-a-two-path-helper", Silent: true, Edits: []Edit{{"publish.go", "func (p *Publish) WriteTo(w io.Writer) (int64, error) {\n\tb := make([]byte, p.fill(_LEN, 0))\n\tp.fill(b, 0)\n\tn, err := w.Write(b)\n\treturn int64(n), err\n}\n\nfunc (p *Publish) width() int {\n\treturn p.fill(_LEN, 0)\n}\n\nfunc (p *Publish) fill(b []byte, i int) int {\n\tremainingLen := vbint(p.variableHeader(_LEN, 0))\n\n\tif len(p.payload) > 0 {\n\t\tremainingLen += vbint(p.payload.fill(_LEN, 0))\n\t}\n\n\ti += p.fixed.fill(b, i)      // firstByte header\n\ti += remainingLen.fill(b, i) // remaining length\n\ti += p.variableHeader(b, i)  // variable header\n\tif len(p.payload) > 0 {\n\t\ti += p.payload.fill(b, i) // payload\n\t}\n\n\treturn i\n}\nfunc (p *Publish) variableHeader(b []byte, i int) int {\n\tn := i\n\n\ti += p.topicName.fill(b, i)\n\tif v := p.QoS(); v == 1 || v == 2 {\n\t\ti += p.packetID.fill(b, i)\n\t}\n\ti += vbint(p.properties(_LEN, 0)).fill(b, i) // Properties len\n\ti += p.properties(b, i)                      // Properties\n\n\treturn i - n\n}\n\n", "func (p *Publish) WriteTo(w io.Writer) (int64, error) {\n\tb := make([]byte, p.width())\n\tp.fill(b, 0)\n\tn, err := w.Write(b)\n\treturn int64(n), err\n}\n\nfunc (p *Publish) width() int {\n\treturn p.fill(_LEN, 0)\n}\n\n// remainingLen returns the number of bytes following the fixed\n// header, i.e. the variable header and the payload.\nfunc (p *Publish) remainingLen() vbint {\n\tn := vbint(p.variableHeader(_LEN, 0))\n\tif p.hasPayload() {\n\t\tn += vbint(p.payload.width())\n\t}\n\treturn n\n}\n\nfunc (p *Publish) hasPayload() bool { return len(p.payload) > 0 }\n\nfunc (p *Publish) fill(b []byte, i int) int {\n\tremainingLen := p.remainingLen()\n\n\ti += p.fixed.fill(b, i)      // firstByte header\n\ti += remainingLen.fill(b, i) // remaining length\n\ti += p.variableHeader(b, i)  // variable header\n\tif p.hasPayload() {\n\t\ti += p.payload.fill(b, i) // payload\n\t}\n\n\treturn i\n}\n\nfunc (p *Publish) variableHeader(b []byte, i int) int {\n\tn := i\n\tpropl := vbint(p.properties(_LEN, 0))\n\n\ti += p.topicName.fill(b, i)\n\tswitch p.QoS() {\n\tcase 1, 2:\n\t\ti += p.packetID.fill(b, i)\n\t}\n\ti += propl.fill(b, i)   // Properties len\n\ti += p.properties(b, i) // Properties\n\n\treturn i - n\n}\n\n"}}},
+		{Name: "two-path-helper-forgets-a-one-byte-payload", Rule: "R2.4", Where: "Publish", Edits: []Edit{{"publish.go", "func (p *Publish) WriteTo(w io.Writer) (int64, error) {\n\tb := make([]byte, p.fill(_LEN, 0))\n\tp.fill(b, 0)\n\tn, err := w.Write(b)\n\treturn int64(n), err\n}\n\nfunc (p *Publish) width() int {\n\treturn p.fill(_LEN, 0)\n}\n\nfunc (p *Publish) fill(b []byte, i int) int {\n\tremainingLen := vbint(p.variableHeader(_LEN, 0))\n\n\tif len(p.payload) > 0 {\n\t\tremainingLen += vbint(p.payload.fill(_LEN, 0))\n\t}\n\n\ti += p.fixed.fill(b, i)      // firstByte header\n\ti += remainingLen.fill(b, i) // remaining length\n\ti += p.variableHeader(b, i)  // variable header\n\tif len(p.payload) > 0 {\n\t\ti += p.payload.fill(b, i) // payload\n\t}\n\n\treturn i\n}\nfunc (p *Publish) variableHeader(b []byte, i int) int {\n\tn := i\n\n\ti += p.topicName.fill(b, i)\n\tif v := p.QoS(); v == 1 || v == 2 {\n\t\ti += p.packetID.fill(b, i)\n\t}\n\ti += vbint(p.properties(_LEN, 0)).fill(b, i) // Properties len\n\ti += p.properties(b, i)                      // Properties\n\n\treturn i - n\n}\n\n", "func (p *Publish) WriteTo(w io.Writer) (int64, error) {\n\tb := make([]byte, p.width())\n\tp.fill(b, 0)\n\tn, err := w.Write(b)\n\treturn int64(n), err\n}\n\nfunc (p *Publish) width() int {\n\treturn p.fill(_LEN, 0)\n}\n\n// remainingLen returns the number of bytes following the fixed\n// header, i.e. the variable header and the payload.\nfunc (p *Publish) remainingLen() vbint {\n\tn := vbint(p.variableHeader(_LEN, 0))\n\tif p.hasPayload() && len(p.payload) > 1 {\n\t\tn += vbint(p.payload.width())\n\t}\n\treturn n\n}\n\nfunc (p *Publish) hasPayload() bool { return len(p.payload) > 0 }\n\nfunc (p *Publish) fill(b []byte, i int) int {\n\tremainingLen := p.remainingLen()\n\n\ti += p.fixed.fill(b, i)      // firstByte header\n\ti += remainingLen.fill(b, i) // remaining length\n\ti += p.variableHeader(b, i)  // variable header\n\tif p.hasPayload() {\n\t\ti += p.payload.fill(b, i) // payload\n\t}\n\n\treturn i\n}\n\nfunc (p *Publish) variableHeader(b []byte, i int) int {\n\tn := i\n\tpropl := vbint(p.properties(_LEN, 0))\n\n\ti += p.topicName.fill(b, i)\n\tswitch p.QoS() {\n\tcase 1, 2:\n\t\ti += p.packetID.fill(b, i)\n\t}\n\ti += propl.fill(b, i)   // Properties len\n\ti += p.properties(b, i) // Properties\n\n\treturn i - n\n}\n\n"}}},
 		{Name: "remaining-length-omits-properties", Rule: "R2.4", Where: "ConnAck", Edits: []Edit{{"connack.go", "\ti += vbint(p.variableHeader(_LEN, 0)).fill(b, i) // remaining length", "\ti += vbint(2).fill(b, i) // remaining length"}}},
 		{Name: "property-length-omits-user-properties", Rule: "R2.4", Where: "Publish", Edits: []Edit{
 			{"publish.go", "\ti += vbint(p.properties(_LEN, 0)).fill(b, i) // Properties len", "\ti += vbint(p.properties(_LEN, 0) - p.UserProperties.properties(_LEN, 0)).fill(b, i) // Properties len"}}},
@@ -290,6 +292,26 @@ func checkC02(p *Prog, c *Check) {
 				}
 			}
 		}
+		// … and on states steered so that the remaining length, or the property length, sits on a boundary (the sizes
+		// at which a length field grows by a byte, and the neighbourhood of every constant in the encoder's code)
+		for _, ts := range p.targetedStates(tn, fill) {
+			evs, _, why := p.encoderTrace(ts.st, fill)
+			if why != "" {
+				continue
+			}
+			obs, why := p.observe(tn, ts.st.Recv, ts.st.Mem, ts.st.Maps, 0)
+			if why != "" {
+				continue
+			}
+			n++
+			w := &specWalk{p: p, tn: tn, st: ts.st, will: ts.st.Will, obs: obs, evs: evs, errs: map[string]string{}}
+			w.walk(codeOf[tn])
+			for r, e := range w.errs {
+				if errs[r] == "" {
+					errs[r] = fmt.Sprintf("state %s: %s; emitted: %s", ts.name, e, traceStringShort(evs))
+				}
+			}
+		}
 		nstates += n
 		for _, rule := range []string{"R2.1", "R2.2", "R2.3", "R2.4", "R2.5"} {
 			if e, bad := errs[rule]; bad {
@@ -327,6 +349,8 @@ func checkC02(p *Prog, c *Check) {
 		switch {
 		case f.ok:
 			c.OK("R2.4", f.cons, f.pos, f.how)
+		case f.unk && f.top != nil && evaluatedOK(c, "R2.4", f.top):
+			c.OK("R2.4", f.cons, f.pos, "not decided structurally ("+f.how+"); backed by the evaluation: the remaining length equals the bytes that follow on every well-formed abstract packet state of the type")
 		case f.unk:
 			c.Unk("R2.4", f.cons, f.pos, f.how)
 		default:
